@@ -4,6 +4,7 @@ import (
 	"context"
 	"errors"
 	"fmt"
+	"strings"
 
 	"github.com/skx/evalfilter/v2/code"
 	"github.com/skx/evalfilter/v2/object"
@@ -225,6 +226,7 @@ func c07(c *ev.Ctx) {
 	c02ExitHistories(c)
 	c07HostileHistories(c)
 	c07HostUpdatesInPlace(c)
+	c07HostIterable(c)
 	// the host changes a record in place and hands the same pointer / map to the next run
 	// (the stream is shared with C04)
 	c04SameReference(c)
@@ -476,6 +478,62 @@ func c07HostUpdatesInPlace(c *ev.Ctx) {
 				if oa.Panicked || ob.Panicked || !sameView(va, vb) {
 					c.Violation(id, "a value the host updated in place is served from an earlier run", map[string]interface{}{
 						"summary": fmt.Sprintf("step %d (%s): the much-used evaluator gives %s %s, a fresh one holding copies of the same variables gives %s %s\n  script: %s", ui+1, u.what, va, errText(oa.Err), vb, errText(ob.Err), script), "script": script})
+					break
+				}
+			}
+		}
+	}
+}
+
+// c07Countdown is a host-defined value a script can iterate over (object.Iterable): it
+// yields n, n-1, ... 1. The engine walks such a value itself, position and all.
+type c07Countdown struct {
+	n, pos int
+}
+
+func (k *c07Countdown) Inspect() string          { return fmt.Sprintf("countdown(%d)", k.n) }
+func (k *c07Countdown) Type() object.Type        { return "COUNTDOWN" }
+func (k *c07Countdown) True() bool               { return k.n > 0 }
+func (k *c07Countdown) ToInterface() interface{} { return k.n }
+func (k *c07Countdown) Reset()                   { k.pos = 0 }
+func (k *c07Countdown) Next() (object.Object, object.Object, bool) {
+	if k.pos >= k.n {
+		return nil, &object.Integer{Value: 0}, false
+	}
+	k.pos++
+	return &object.Integer{Value: int64(k.n - k.pos + 1)}, &object.Integer{Value: int64(k.pos - 1)}, true
+}
+
+// c07HostIterable: a loop over a host-defined iterable starts at its beginning, whatever
+// became of earlier loops over the same value - left by return, by an error, by a panic,
+// in the same run or in an earlier one. Compared with a fresh evaluator holding an equal value.
+func c07HostIterable(c *ev.Ctx) {
+	scripts := []string{
+		`sum = 0; foreach v in ticks { sum = sum + v; if (Leave && v == 3) { return sum; } } return sum;`,
+		`sum = 0; foreach i, v in ticks { sum = sum + v; if (Leave && i == 1) { x = 1 / Zero; } } return sum;`,
+		`function walk() { local s; s = 0; foreach v in ticks { s = s + v; if (Leave && v == 2) { panic("stop"); } } return s; } return walk();`,
+		`n = 0; foreach v in ticks { foreach w in ticks { n = n + 1; } if (Leave) { return n; } } return n;`,
+		`a = 0; foreach v in ticks { a = a + 1; if (Leave) { return a; } } b = 0; foreach v in ticks { b = b + 1; } return [a, b];`,
+	}
+	for si, script := range scripts {
+		for _, noOpt := range []bool{false, true} {
+			id := fmt.Sprintf("host-iterable/%d/%v", si, noOpt)
+			if !c.Want(id) {
+				continue
+			}
+			used, err := eng.New(script, eng.Options{NoOptimize: noOpt, ObjVars: map[string]object.Object{"ticks": &c07Countdown{n: 4}}})
+			if err != nil {
+				c.Violation(id, "prepare", map[string]interface{}{"summary": "Prepare failed: " + err.Error(), "script": script})
+				continue
+			}
+			for step, leave := range []bool{false, true, false, true, true, false} {
+				obj := map[string]interface{}{"Leave": leave, "Zero": 0}
+				fresh, _ := eng.New(script, eng.Options{NoOptimize: noOpt, ObjVars: map[string]object.Object{"ticks": &c07Countdown{n: 4}}})
+				ou, of := used.Exec(obj), fresh.Exec(obj)
+				c.Case(fmt.Sprint(id, step), true)
+				if ou.Desc() != of.Desc() || ou.Panicked || strings.Join(ou.Trace, "|") != strings.Join(of.Trace, "|") {
+					c.Violation(id, "a loop over a host-defined iterable does not start at its beginning", map[string]interface{}{
+						"summary": fmt.Sprintf("%s (noopt=%v), run %d (Leave=%v): the much-used evaluator gives %s %s, a fresh one with an equal value gives %s %s", script, noOpt, step+1, leave, ou.Desc(), errText(ou.Err), of.Desc(), errText(of.Err)), "script": script})
 					break
 				}
 			}
